@@ -13,6 +13,7 @@ import Driver.C12
 import Driver.C11
 import Driver.C10
 import Driver.C09
+import Driver.C18
 import Driver.C04
 
 def dispatch (line : String) : String :=
@@ -36,6 +37,7 @@ def dispatch (line : String) : String :=
     else if op.startsWith "c15." then Driver.C15.handle toks
     else if op.startsWith "c16." then Driver.C16.handle toks
     else if op.startsWith "c04." then Driver.C04.handle toks
+    else if op.startsWith "c18." then Driver.C18.handle toks
     else "bad-op"
 
 partial def loop (h : IO.FS.Stream) (out : IO.FS.Stream) : IO Unit := do
